@@ -107,6 +107,7 @@ type expSession struct {
 	// Write calls on the exporter's stream socket: when each was invoked and the message header it carried
 	writeCalls []writeCall
 	send2Ch    chan send2Req
+	scratch    []entities.InfoElementWithValue // the application's re-used element list
 	// C01: called when the application reaches a "cstall" op
 	onConsumerStall func(d time.Duration)
 }
@@ -731,7 +732,19 @@ func (s *expSession) opData1(i int, op plan.Op) {
 		if len(recSpecs) != len(specs) {
 			c.Valid, c.Expect, c.Why = false, "error", "record field count differs from the template"
 		}
-		elems := make([]entities.InfoElementWithValue, len(recSpecs))
+		// AddRecord and AddRecordWithExtraElements copy the element list they are handed (only
+		// AddRecordV2 keeps it): an application may fill one scratch slice again for every record.
+		// Half of the calls do that, with fresh element objects in it each time.
+		var elems []entities.InfoElementWithValue
+		if op.S != "v2" && op.C&1 == 1 {
+			if cap(s.scratch) < len(recSpecs) {
+				s.scratch = make([]entities.InfoElementWithValue, 0, 2*len(recSpecs)+4)
+			}
+			elems = s.scratch[:len(recSpecs)]
+			s.env.Count("probe.element_slice_reused_across_records", 1)
+		} else {
+			elems = make([]entities.InfoElementWithValue, len(recSpecs))
+		}
 		for k, sp := range recSpecs {
 			ie, err := registry.GetInfoElement(sp.Name, sp.Ent)
 			if err != nil {
